@@ -37,8 +37,12 @@ class C17(FsProp):
     ]
 
     def mc(self, tier):
-        return [{"module": "EditFs.tla", "cfg": "MC_EditFs.cfg", "coverage": True, "workers": 2, "coverage_exempt": ["EditFs!ShortCount"],
+        return [{"module": "EditFs.tla", "cfg": "MC_EditFs.cfg", "coverage": True, "workers": 2, "coverage_exempt": ["EditFs!ShortCount", "EditFs!Handle", "EditFs!HandleCrash"],
                  "what": "edit FS program (fixed variant) x Crash/Fail/TornWrite at every point x encodable or not"},
+                {"module": "EditFs.tla", "cfg": "MC_EditFs_bakchecked.cfg", "coverage": True, "workers": 2, "coverage_exempt": ["EditFs!ShortCount"],
+                 "what": "a safety copy made first and put back on error only once it is known to be complete: safe as well"},
+                {"module": "EditFs.tla", "cfg": "MC_EditFs_bakrollback.cfg", "expect": "fail", "workers": 2,
+                 "what": "seed R26-C17: every error answered by renaming the safety copy over M - also when the copy itself failed part way"},
                 {"module": "EditFs.tla", "cfg": "MC_EditFs_code.cfg", "expect": "fail", "workers": 2,
                  "what": "remove-then-write (pinned commit) must violate NeverLost"},
                 {"module": "EditFs.tla", "cfg": "MC_EditFs_notrunc.cfg", "expect": "fail", "workers": 2,
